@@ -191,6 +191,8 @@ def _gen_schedule(rng, model, env, kind, allow_v2=True):
         "layout": dict(PLAIN) if kind == "plain" else random_layout(rng, wild=rng.random() < 0.6),
         "argseed": 0 if kind == "plain" else rng.randrange(1, 1 << 20),
         "history": hist, "meta": meta, "v2": v2,
+        # the first attempt meets a data file with a broken row; the file is then repaired and the same program goes on
+        "bad_first": kind != "plain" and rng.random() < 0.12,
     }
 
 
@@ -201,11 +203,30 @@ def generate(prop, rng, index, tier):
     return modelsim_faults.generate(prop, rng, index, tier)
 
 
+def _rename_result(model, old, new):
+    def sub(v):
+        if isinstance(v, list):
+            return [sub(x) for x in v]
+        return new if v == old else v
+    for c in model["cmds"]:
+        if c["name"] == old:
+            c["name"] = new
+        for k in list(c["args"]):
+            if k in ("InFieldName", "InFieldNames", "A", "B", "OutFieldNames") and not (c["cmd"] == "EEMSRead" and k == "InFieldName"):
+                c["args"][k] = sub(c["args"][k])
+
+
 def _generate_c02(rng, index, tier):
     knob = index % 4
     ints = {0: False, 1: None, 2: None, 3: True}[knob] if rng.random() < 0.8 else None
     missing = {0: False, 1: False, 2: True, 3: None}[knob] if rng.random() < 0.8 else None
     model = modelgen.gen_model(rng, tier, ints=ints, missing=missing)
+    if rng.random() < 0.15:
+        # result names that differ only in case are different results
+        cands = [c["name"] for c in model["cmds"] if c["cmd"] not in ("EEMSWrite", "PrintVars")]
+        if len(cands) >= 2:
+            for old, new in zip(rng.sample(cands, 2), ("Slope", "slope")):
+                _rename_result(model, old, new)
     env = eems.run_model(model["table"], model["cmds"])
     kinds = ["topo", "reverse"] + [rng.choice(["random", "random", "topo", "reverse"])
                                    for _ in range(rng.randint(1, 4 if tier == "quick" else 6))]
@@ -242,6 +263,28 @@ def run_schedule(model, sched, log, res, want_results=True):
             program = Program.from_source(text, working_dir=model.get("working_dir", modelgen.WORK))
             out["program"] = program
             mon.install(list(program.command_library.values()))
+            if sched.get("bad_first"):
+                import posixpath
+                path = posixpath.normpath(model["table"]["path"])
+                good = fs.files.get(path)
+                rows = good.decode("utf-8").split("\n") if good else []
+                if len(rows) >= 2 and rows[1]:
+                    rows[1] = ",".join("n/a" for _ in rows[1].split(","))
+                    fs.files[path] = "\n".join(rows).encode("utf-8")
+                    fs.touch(path)
+                    log.emit("actor", do="break-row", path=path)
+                    try:
+                        program.run()
+                        log.emit("bad-first", outcome="ran")
+                    except SimAbort:
+                        raise
+                    except Exception as exc:  # noqa
+                        log.emit("bad-first", outcome=type(exc).__name__)
+                        res.probe("first run failed on a broken data row, the file was then repaired")
+                    fs.files[path] = good
+                    fs.touch(path)
+                    log.emit("actor", do="repair", path=path)
+                    res.fired("actor-break-then-repair-input")
             for op in sched.get("history") or [["RUN"]]:
                 log.emit("op-begin", op=op)
                 if op[0] == "RUN":
